@@ -38,6 +38,7 @@ type E7Spec struct {
 	MethodKeyed   []FuncRuleSpec     `json:"method_keyed_maps"`
 	DottedSuffix  []FuncRuleSpec     `json:"dotted_suffix"`
 	EdgeClosure   []EdgeClosureSpec  `json:"edge_closure"`
+	NilableGlobal []FuncRuleSpec     `json:"nilable_globals"`
 }
 
 type FuncRuleSpec struct {
@@ -142,6 +143,9 @@ func runE7(p *Program, sp *Spec, c *Collector) {
 	}
 	for _, ec := range t.EdgeClosure {
 		runEdgeClosure(p, c, ec)
+	}
+	for _, ng := range t.NilableGlobal {
+		runNilableGlobals(p, c, ng)
 	}
 	for _, n := range t.NoExit {
 		runNoExit(p, sp, c, n)
@@ -2252,4 +2256,89 @@ func naturalLoopOf(fn *ssa.Function, h *ssa.BasicBlock) map[*ssa.BasicBlock]bool
 		}
 	}
 	return map[*ssa.BasicBlock]bool{}
+}
+
+
+// ---------------------------------------------------------------------------------------------
+// nil-able package-level pointers: a pointer variable that some function of the group sets to nil ("no current class") may be
+// nil whenever another callback runs — callbacks nest (a class inside a class: the inner Exit clears the pointer the outer
+// Exit still needs). Every dereference must be guarded by a nil test on the path or by an assignment of a fresh object
+// earlier in the same function.
+
+func runNilableGlobals(p *Program, c *Collector, a FuncRuleSpec) {
+	fns := expandFuncs(p, c, a.Funcs, a.Props...)
+	nilable := map[*ssa.Global]ssa.Instruction{}
+	for _, fn := range fns {
+		for _, b := range fn.Blocks {
+			for _, in := range b.Instrs {
+				if st, ok := in.(*ssa.Store); ok {
+					if g, whole := globalOfAddr(st.Addr); g != nil && whole && isNilConst(st.Val) {
+						if _, isPtr := g.Type().Underlying().(*types.Pointer).Elem().Underlying().(*types.Pointer); isPtr {
+							nilable[g] = st
+						}
+					}
+				}
+			}
+		}
+	}
+	n := 0
+	for _, fn := range fns {
+		sf := newSymFn(p, fn, 0)
+		for _, b := range fn.Blocks {
+			for _, in := range b.Instrs {
+				// dereference: field address or load through the pointer loaded from g
+				var ptr ssa.Value
+				switch x := in.(type) {
+				case *ssa.FieldAddr:
+					ptr = x.X
+				case *ssa.UnOp:
+					if x.Op == token.MUL {
+						if _, isG := x.X.(*ssa.Global); !isG {
+							ptr = x.X
+						}
+					}
+				}
+				if ptr == nil {
+					continue
+				}
+				g := loadedGlobal(ptr)
+				if g == nil || nilable[g] == nil {
+					continue
+				}
+				n++
+				key := fmt.Sprintf("nilable:%s *%s#%d", p.FuncKey(fn), g.Name(), n)
+				guarded := false
+				var cs []*Sym
+				conjuncts(sf.pathCond(b), &cs)
+				want := "(global(" + p.GlobalKey(g) + ") != nil)"
+				for _, cj := range cs {
+					if cj.String() == want {
+						guarded = true
+					}
+				}
+				if !guarded {
+					// a fresh object assigned earlier in this function, on every path
+					for _, b2 := range fn.Blocks {
+						for _, in2 := range b2.Instrs {
+							if st, ok := in2.(*ssa.Store); ok {
+								if g2, whole := globalOfAddr(st.Addr); g2 == g && whole && !isNilConst(st.Val) && instrDominates(st, in) {
+									if _, fresh := st.Val.(*ssa.Alloc); fresh {
+										guarded = true
+									}
+								}
+							}
+						}
+					}
+				}
+				if guarded {
+					c.Ob(a.Props, "E7.nilable-global", key, Discharged, "dereference guarded by a nil test or preceded by the assignment of a fresh object", p.InstrPos(in), true)
+				} else {
+					c.Ob(a.Props, "E7.nilable-global", key, Violated, a.What+": "+g.Name()+" is set to nil at "+p.InstrPos(nilable[g])+" and dereferenced here without a nil test: when the constructs nest (the inner one's exit clears the pointer) this crashes", p.InstrPos(in), false)
+				}
+			}
+		}
+	}
+	if n == 0 {
+		c.Ob(a.Props, "E7.nilable-global", "nilable:"+strings.Join(a.Funcs, ","), Discharged, a.What+": no package-level pointer that is ever set to nil is dereferenced", "", true)
+	}
 }
